@@ -162,12 +162,13 @@ def setup(run):
         x = pts.reshape(-1, n).astype(float)
         y = res.reshape(-1, n).astype(float)
         u = 1.0 - np.sum(x * x, axis=-1)
-        ok = np.isfinite(u) & (u >= -1e-12)
+        # closed ball; |k|^2 may exceed 1 by rounding only (a few ulp)
+        ok = np.isfinite(u) & (u >= -4e-15)
         exp = rh.klein_to_poincare(x)
         err = rowmax(y - exp)
         with np.errstate(all="ignore"):
-            tol = (1e-9 + 2 * np.sqrt(np.clip(-u, 0, None))
-                   + np.minimum(2e-6, 2e-13 / np.sqrt(np.clip(u, 1e-300, None))))
+            tol = 1e-9 + np.where(u < 0, 2e-6, np.minimum(
+                2e-6, 2e-13 / np.sqrt(np.clip(u, 1e-300, None))))
         if (~ok).any():
             mon.skip("kleinian_to_poincare: point outside the closed ball")
         w = worst_row(err, tol, ok)
@@ -901,6 +902,32 @@ def wl_metric(run, rng, idx):
                        "d(x,y)+d(y,z) != d(x,z) for y on the segment xz",
                        dict(case, row=w, sides=[d12[w], d23[w], d13[w]]))
 
+    # one point against a composite (numpy-style broadcasting of the units)
+    if shape:
+        kz = r2.rand_klein(rng, n, (), cls if cls != "origin" else "bulk")
+        Z = construct(r2.klein_to_model(kz, m3, rng), m3, "array")
+        case_b = dict(case, klein_single=kz)
+        run.current_case = case_b
+        dzr = r2.dist_klein_ref(f1, kz)
+        omz = np.minimum(o1, r2.one_minus_r_klein(kz))
+        for lab, dz in (("d(X,z)", X1.distance(Z)), ("d(z,X)", Z.distance(X1))):
+            dz = np.asarray(dz, dtype=float)
+            if dz.shape != tuple(shape):
+                lmon.fail("metric-laws/distance-shape/broadcast",
+                          "%s has shape %r for a composite of shape %r and a single point"
+                          % (lab, dz.shape, shape), case_b)
+                continue
+            dz = dz.reshape(-1)
+            if finite_nonneg(dz, dzr, omz, lab, "broadcast"):
+                tol = r2.dist_tol(dzr, omz)
+                err = np.abs(dz - dzr)
+                w = worst_row(err, tol, allrows)
+                lmon.judge(err[w], tol[w], "metric-laws/value/broadcast",
+                           "distance between a composite and a single point differs from the "
+                           "reference", dict(case_b, row=w, library=dz[w], reference=dzr[w]))
+        run.note_class("broadcast", *sig)
+        run.current_case = case
+
     # closed forms on returned coordinates
     ctol = r2.coord_tol(om12)
     dtol = r2.dist_tol(d12r, om12)
@@ -1038,7 +1065,7 @@ def wl_ambient(run, rng, idx):
         ends = seg.get_endpoints()
         for m in MODELS:
             ends.coords(m)
-        a, b = seg.get_end_pair()
+        a, b = seg.get_end_pair(as_points=True)
         a.distance(b)
         if n == 2:
             seg.circle_parameters(model="poincare")
@@ -1051,9 +1078,9 @@ def wl_ambient(run, rng, idx):
 
 
 WORKLOADS = [
-    Workload("round-trip", wl_roundtrip, quick=240, thorough=7200),
-    Workload("round-trip-halfspace-data", wl_roundtrip_halfspace, quick=72, thorough=2880),
-    Workload("metric", wl_metric, quick=360, thorough=14400),
-    Workload("construction", wl_construction, quick=60, thorough=960),
-    Workload("ambient", wl_ambient, quick=24, thorough=480),
+    Workload("round-trip", wl_roundtrip, quick=240, thorough=24000),
+    Workload("round-trip-halfspace-data", wl_roundtrip_halfspace, quick=72, thorough=8640),
+    Workload("metric", wl_metric, quick=360, thorough=48000),
+    Workload("construction", wl_construction, quick=60, thorough=2880),
+    Workload("ambient", wl_ambient, quick=24, thorough=960),
 ]
